@@ -16,6 +16,11 @@ import sds_format as F  # noqa: E402
 
 
 def write_case(d, i, data, lines):
+    # Every third file holds the structure as the body of an optional structure (size element first), as a document-conformant
+    # writer would store an optional member: kinds cycle with period 7, so every kind is wrapped and unwrapped in turn.
+    if i % 3 == 1:
+        data = F.enc_option(data)
+        lines = lines + ["wrap option"]
     open(os.path.join(d, "r_%05d.bin" % i), "wb").write(data)
     open(os.path.join(d, "r_%05d.txt" % i), "w").write("\n".join(lines) + "\n")
 
